@@ -67,6 +67,11 @@ func traverse(context Context, matchingNode *CandidateNode, operation *Operation
 			// an alias without a target (created with `alias = "name"`): nothing to traverse
 			return list.New(), nil
 		}
+		if operation.Preferences.(traversePreferences).DontFollowAlias {
+			// merge works on a copy of the LHS whose aliases still point into the document:
+			// an alias is a leaf there, never a way to write into the anchored node
+			return list.New(), nil
+		}
 		matchingNode = matchingNode.Alias
 		return traverse(context, matchingNode, operation)
 	default:
